@@ -300,8 +300,106 @@ def poll_cases(ctx):
                       {"suite": "c08-poll", "case": b, "failures": len(bad), "first_failing_clause": "i-th output = operator(i-th operand outputs)"})
 
 
+# ---- operands that are live objects ---------------------------------------------------------------------------------------
+# "the i-th output is the operator applied to the i-th outputs of its operands": the operand is the OBJECT the user passed, so
+# when that object's output changes between two steps (a PConstant whose value is re-assigned — the usual way to steer a
+# running expression —, a PSequence whose list is edited, a PRef re-pointed) the operator node follows at the next step.
+
+def live_operand_cases(ctx):
+    import warnings
+    iso = pat_impl.iso
+    r = ctx.rng
+    names = sorted(k for k in PYOP if k not in ("and", "pow", "lshift", "rshift"))
+    for i in range(ctx.scale(200, 8000)):
+        op = r.choice(names)
+        f = PYOP[op]
+        n = r.randint(4, 10)
+        seq = [r.randint(-9, 9) for _ in range(n)]
+        levels = []                       # the constant's value at every step
+        cur = r.choice([1, 2, 3, -4, 0.5, 7])
+        for _ in range(n):
+            if r.random() < 0.4:
+                cur = r.choice([1, 2, 3, 5, -2, 0.25, 9, None, 0])
+            levels.append(cur)
+        kind = r.choice(["constant", "constant", "constant", "ref", "sequence-edit"])
+        shape = r.choice(["seq-op-level", "level-op-seq", "nested-right", "nested-left", "scalar-level"])
+        k = r.choice([2, 3, 7])
+        with warnings.catch_warnings():
+            warnings.simplefilter("ignore")
+            if kind == "constant":
+                level = iso.PConstant(levels[0])
+
+                def set_level(v):
+                    level.constant = v
+            elif kind == "ref":
+                level = iso.PRef(iso.PConstant(levels[0]))
+
+                def set_level(v):
+                    level.set_pattern(iso.PConstant(v))
+            else:
+                level = iso.PSequence([levels[0]])
+
+                def set_level(v):
+                    level.sequence[0] = v
+            s = iso.PSequence(list(seq), 1)
+            try:
+                if shape == "seq-op-level":
+                    pat, ref = f(s, level), (lambda a, c: _apply(f, a, c))
+                elif shape == "level-op-seq":
+                    pat, ref = f(level, s), (lambda a, c: _apply(f, c, a))
+                elif shape == "nested-right":
+                    pat = f(s, iso.PAdd(level, k))
+                    ref = lambda a, c: _apply(f, a, None if c is None else c + k)
+                elif shape == "nested-left":
+                    pat = f(k * level, s)
+                    ref = lambda a, c: _apply(f, None if c is None else k * c, a)
+                else:
+                    pat = f(k, level) + s
+                    def ref(a, c):
+                        try:
+                            x = _raw(f, k, c)
+                        except Exception as ex:
+                            return "err:" + type(ex).__name__
+                        return _apply(lambda u, w: u + w, x, a)
+            except Exception as ex:
+                ctx.note("live operand case could not be built: %r" % (ex,))
+                continue
+            got, exp = [], []
+            for j in range(n):
+                set_level(levels[j])
+                exp.append(ref(seq[j], levels[j]))
+                try:
+                    got.append(_tok(next(pat)))
+                except StopIteration:
+                    got.append("stop")
+                    break
+                except Exception as ex:
+                    got.append("err:" + type(ex).__name__)
+        case = {"op": op, "shape": shape, "operand": kind, "sequence": seq, "operand_value_at_step": levels, "k": k}
+        ctx.case(("live-operand", repr(case)), nontrivial=len(set(map(repr, levels))) > 1, validated=False, sample=dict(case, got=got) if i < 3 else None)
+        ctx.count("live-operand:%s" % kind)
+        # an exception at one step (ZeroDivisionError …) is that step's outcome; compare up to and including the first one
+        cut = next((j for j, t in enumerate(exp) if t.startswith("err")), None)
+        if cut is not None:
+            got, exp = got[:cut + 1], exp[:cut + 1]
+        if got != exp:
+            j = next((j for j, (x, y) in enumerate(zip(got, exp)) if x != y), min(len(got), len(exp)))
+            ctx.violation("C08:elementwise-live-operand:" + op,
+                          "%s with a %s operand re-assigned between steps: step %d gave %s, the operands' outputs at that step give %s"
+                          % (shape, kind, j, got[j:j + 1], exp[j:j + 1]),
+                          {"suite": "c08-live", "case": case, "got": got, "expected": exp,
+                           "first_failing_clause": "i-th output = operator(i-th operand outputs)"})
+
+
+def _raw(f, a, b):
+    if a is None or b is None:
+        return None
+    return f(a, b)
+
+
 def run(ctx):
     special_float_cases(ctx)
+    live_operand_cases(ctx)
     poll_cases(ctx)
     n_cases = ctx.scale(2500, 250000)
     scripts = []
